@@ -353,7 +353,7 @@ func checkC06(raw json.RawMessage) (ev.Result, error) {
 		}
 		for _, br := range []bool{true, false} {
 			edges++
-			fix, ok := solver.SolveEdge(labelvm.Edge{Jump: i, Branch: br}, pick, 6)
+			fix, ok := solver.SolveEdge(labelvm.Edge{Jump: i, Branch: br}, pick, 24)
 			if !ok {
 				continue
 			}
